@@ -66,7 +66,7 @@ def worker(k, q, args, outf):
             except queue.Empty:
                 break
             path = os.path.join(wt, m["file"])
-            orig = open(os.path.join("/repo", m["file"]), "rb").read()
+            orig = open(os.path.join(args.srcroot, m["file"]), "rb").read()  # HEAD of /repo as it was when the sweep began
             res = dict(id=m["id"], file=m["file"], line=m["line"], func=m["func"], op=m["op"], desc=m["desc"], start=m["start"], end=m["end"], repl=m["repl"])
             t0 = time.time()
             try:
@@ -160,8 +160,16 @@ def main():
     q = queue.Queue()
     n = 0
     per_file = []
+    # the sweep works on /repo's HEAD as it is now (the workers' worktrees are checked out from it): uncommitted or later edits
+    # of /repo must not shift the byte offsets of the mutants
+    args.srcroot = os.path.join(HERE, "build", "mutsrc-%d" % os.getpid())
     for f in files:
-        out = run([gen, "/repo", f]).stdout
+        dst = os.path.join(args.srcroot, f)
+        os.makedirs(os.path.dirname(dst), exist_ok=True)
+        blob = subprocess.run(["git", "-C", "/repo", "show", "HEAD:" + f], stdout=subprocess.PIPE).stdout
+        open(dst, "wb").write(blob)
+    for f in files:
+        out = run([gen, args.srcroot, f]).stdout
         ms = [json.loads(l) for l in out.splitlines() if l.startswith("{")]
         rnd = random.Random(args.seed)
         rnd.shuffle(ms)
@@ -185,6 +193,7 @@ def main():
         for t in ts:
             t.join()
     shutil.rmtree("/tmp/mutsweep", ignore_errors=True)
+    shutil.rmtree(args.srcroot, ignore_errors=True)
     return 0
 
 
